@@ -129,7 +129,7 @@ theorem C18_refused_is_inert (cfg : HCfg) (t ip : Nat) (k : HKind) (s : HState)
       · simp [c3] at h
       · simp only [c3, Bool.false_eq_true, if_false] at h ⊢
         cases hk : k.outcome with
-        | none => simp [hk] at h
+        | none => cases k <;> simp_all [HKind.outcome, HKind.neutralResp]
         | some b => cases b <;> simp [hk] at h
 
 /-! ## Ties to the source: defaults and call skeletons -/
@@ -140,6 +140,26 @@ theorem defaults_wf :
     security.DefaultIPRateLimitConfig.Burst * 1000000000 ≤
       security.DefaultIPRateLimitConfig.Rate * security.DefaultIPRateLimitConfig.TTL := by
   decide
+
+/-- the shipped protector configuration (nanoseconds) -/
+def defaultBFns : BruteForceConfig :=
+  ⟨security.DefaultBruteForceConfig.MaxFailures, security.DefaultBruteForceConfig.TimeWindow,
+   security.DefaultBruteForceConfig.BanDuration, security.DefaultBruteForceConfig.PermanentBanAt⟩
+/-- the shipped handshake configuration (nanoseconds, `U` = 10⁹) -/
+def defaultHns : HCfg :=
+  ⟨defaultBFns, ⟨security.DefaultIPRateLimitConfig.Rate, security.DefaultIPRateLimitConfig.Burst,
+                 security.DefaultIPRateLimitConfig.TTL⟩, 1000000000⟩
+
+/-- **The shipped configuration** (what `NewBruteForceProtector(nil, …)` / `NewRateLimiter(nil, nil, …)`
+use — the only way the server builds these components): lock-out, and the handshake clause including
+rate and burst, hold for every time line (durations in nanoseconds, `U` = 10⁹). -/
+theorem C18_lockout_defaults (es : List TEv) (hs : Sorted 1 es) :
+    holdsBF defaultBFns es (run defaultBFns es State.empty) = true :=
+  C18_lockout defaultBFns defaults_wf.1 es hs
+
+theorem C18_handshake_defaults (es : List (Nat × HEv)) (hs : Sorted 1 es) :
+    holdsHS defaultHns es (hRun defaultHns es HState.empty) = true :=
+  C18_handshake defaultHns defaults_wf.1 defaults_wf.2 es hs
 
 theorem defaults_are_the_constants :
     security.DefaultBruteForceConfig.MaxFailures = security.DefaultMaxFailures ∧
@@ -258,6 +278,13 @@ example :
     (⟨20, 2, 210⟩ : RateLimitConfig).Burst * 1000 ≤ (⟨20, 2, 210⟩ : RateLimitConfig).Rate * (⟨20, 2, 210⟩ : RateLimitConfig).TTL ∧
     rlRun ⟨20, 2, 210⟩ 1000 [(20, .allow 1), (20, .allow 1), (20, .allow 1), (80, .allow 1), (80, .allow 1)] (fun _ => none)
       = [some true, some true, some false, some true, some false] := by decide
+
+/-- an attempt with expired credentials is refused without counting as a failure: two of them and one
+real failure stay below `MaxFailures = 2`. -/
+example :
+    hRun ⟨⟨2, 70, 50, 9⟩, ⟨0, 5, 1000000⟩, 1000⟩
+      [(20, .hs 1 .expired), (20, .hs 1 .expired), (20, .hs 1 .unknown), (20, .hs 1 .good)] HState.empty
+      = [some .fail, some .fail, some .fail, some .ok] := by decide
 
 /-- a locked address is refused whatever kind of handshake it tries, then admitted again. -/
 example :
